@@ -43,6 +43,24 @@ def families(n):
     out.append(("bigtable", bytes(r.data)))
     # 64-bit headers with sizes near the file length
     out.append(("large_hdr", isogen.render([isogen.ftyp()] + [B("free", [isogen.Raw(b"\0" * 8)], large=True)] * (k // 3)).data))
+    # k sample entries whose esds descriptors claim to extend over z bytes of zero padding behind the moov box
+    # (descriptor sizes were once trusted beyond their container: quadratic; fixed by "keep esds descriptors within ...")
+    import struct
+
+    def enc28(x):
+        return bytes([0x80 | ((x >> 21) & 0x7f), 0x80 | ((x >> 14) & 0x7f), 0x80 | ((x >> 7) & 0x7f), x & 0x7f])
+    k = max(2, n // 160)
+    z = (n // 2) & ~1
+    pad_start = 40 + 77 * k
+    body = b""
+    for i in range(k):
+        off = 40 + 77 * i
+        body += (struct.pack(">I4sII", 0x4d, b"stsd", 0, 1) + struct.pack(">I4s", 0x3d, b"mp4a") + b"\0" * 28 + struct.pack(">I4sI", 0x19, b"esds", 0)
+                 + b"\x03" + enc28(pad_start + z - (off + 69)) + b"\0\0\0" + b"\x00" + enc28(pad_start - (off + 77)))
+
+    def bx(t, p):
+        return struct.pack(">I4s", 8 + len(p), t) + p
+    out.append(("esds_overrun", bx(b"moov", bx(b"trak", bx(b"mdia", bx(b"minf", bx(b"stbl", body))))) + b"\0" * z))
     return [(name, bytes(d)) for name, d in out]
 
 
